@@ -19,9 +19,12 @@ import (
 	"errors"
 	"fmt"
 	"io"
+	"reflect"
+	"regexp"
 	"sort"
 	"strconv"
 	"strings"
+	"time"
 	"unicode/utf8"
 
 	gojson "github.com/goccy/go-json"
@@ -29,17 +32,30 @@ import (
 
 func init() { props["C09"] = runC09 }
 
-// a reader that delivers the bytes between consecutive cut positions; failAt >= 0 injects an error there
+// a reader that delivers the bytes between consecutive cut positions; failAt >= 0 injects an error there.
+// The io.Reader contract leaves three more freedoms, each of which the stream decoder meets in its refill code:
+// the last bytes may come together with io.EOF (eofWithData), a Read may deliver nothing and no error
+// (zeroEvery: every n-th call), and the failure may come together with the last bytes that did arrive (errWithData).
 type cutReader struct {
-	b      []byte
-	cuts   []int // ascending positions in (0, len(b))
-	pos    int
-	failAt int
-	err    error
-	failed bool // the error has been handed to the caller
+	b           []byte
+	cuts        []int // ascending positions in (0, len(b))
+	pos         int
+	failAt      int
+	err         error
+	failed      bool // the error has been handed to the caller
+	eofWithData bool
+	errWithData bool
+	zeroEvery   int
+	calls       int
 }
 
 func (r *cutReader) Read(p []byte) (int, error) {
+	if r.zeroEvery > 0 {
+		r.calls++
+		if r.calls%r.zeroEvery == 0 {
+			return 0, nil
+		}
+	}
 	if r.failAt >= 0 && r.pos >= r.failAt {
 		r.failed = true
 		return 0, r.err
@@ -54,8 +70,38 @@ func (r *cutReader) Read(p []byte) (int, error) {
 			break
 		}
 	}
+	if end > len(r.b) {
+		end = len(r.b)
+	}
 	if r.failAt >= 0 && end > r.failAt {
 		end = r.failAt
+	}
+	n := copy(p, r.b[r.pos:end])
+	r.pos += n
+	if r.errWithData && r.failAt >= 0 && r.pos >= r.failAt {
+		r.failed = true
+		return n, r.err
+	}
+	if r.eofWithData && r.pos >= len(r.b) {
+		return n, io.EOF
+	}
+	return n, nil
+}
+
+// a reader that delivers pieces of one fixed size (0: whatever is asked for), for documents too long for a cut list
+type c09SizedReader struct {
+	b    []byte
+	size int
+	pos  int
+}
+
+func (r *c09SizedReader) Read(p []byte) (int, error) {
+	if r.pos >= len(r.b) {
+		return 0, io.EOF
+	}
+	end := len(r.b)
+	if r.size > 0 && r.pos+r.size < end {
+		end = r.pos + r.size
 	}
 	n := copy(p, r.b[r.pos:end])
 	r.pos += n
@@ -117,9 +163,95 @@ func c09SameAfterUTF8Repair(a, b string) bool {
 func c09Snap(v interface{}) string {
 	b, err := stdjson.Marshal(v)
 	if err != nil {
-		return "unmarshalable:" + fmt.Sprintf("%#v", v)
+		// e.g. a RawMessage that received a text that is not JSON.  The dump follows pointers: %#v prints their
+		// addresses, which differ from one decode to the next although the values are the same
+		var sb strings.Builder
+		c09Dump(&sb, reflect.ValueOf(v), 0)
+		return "unmarshalable:" + sb.String()
 	}
 	return string(b)
+}
+
+func c09Dump(sb *strings.Builder, v reflect.Value, depth int) {
+	if !v.IsValid() {
+		sb.WriteString("nil")
+		return
+	}
+	if depth > 40 {
+		sb.WriteString("...")
+		return
+	}
+	switch v.Kind() {
+	case reflect.Ptr, reflect.Interface:
+		if v.IsNil() {
+			sb.WriteString("nil")
+			return
+		}
+		if v.Kind() == reflect.Ptr {
+			sb.WriteByte('&')
+		}
+		c09Dump(sb, v.Elem(), depth+1)
+	case reflect.Struct:
+		sb.WriteString(v.Type().String() + "{")
+		for i := 0; i < v.NumField(); i++ {
+			sb.WriteString(v.Type().Field(i).Name + ":")
+			c09Dump(sb, v.Field(i), depth+1)
+			sb.WriteByte(' ')
+		}
+		sb.WriteByte('}')
+	case reflect.Slice, reflect.Array:
+		if v.Kind() == reflect.Slice && v.IsNil() {
+			sb.WriteString("nil")
+			return
+		}
+		if v.Type().Elem().Kind() == reflect.Uint8 {
+			b := make([]byte, v.Len())
+			for i := range b {
+				b[i] = byte(v.Index(i).Uint())
+			}
+			fmt.Fprintf(sb, "%q", b)
+			return
+		}
+		sb.WriteByte('[')
+		for i := 0; i < v.Len(); i++ {
+			c09Dump(sb, v.Index(i), depth+1)
+			sb.WriteByte(' ')
+		}
+		sb.WriteByte(']')
+	case reflect.Map:
+		if v.IsNil() {
+			sb.WriteString("nil")
+			return
+		}
+		var ks []string
+		m := map[string]reflect.Value{}
+		for _, k := range v.MapKeys() {
+			var kb strings.Builder
+			c09Dump(&kb, k, depth+1)
+			ks = append(ks, kb.String())
+			m[kb.String()] = v.MapIndex(k)
+		}
+		sort.Strings(ks)
+		sb.WriteString("map[")
+		for _, k := range ks {
+			sb.WriteString(k + ":")
+			c09Dump(sb, m[k], depth+1)
+			sb.WriteByte(' ')
+		}
+		sb.WriteByte(']')
+	case reflect.String:
+		fmt.Fprintf(sb, "%q", v.String())
+	case reflect.Bool:
+		fmt.Fprint(sb, v.Bool())
+	case reflect.Int, reflect.Int8, reflect.Int16, reflect.Int32, reflect.Int64:
+		fmt.Fprint(sb, v.Int())
+	case reflect.Uint, reflect.Uint8, reflect.Uint16, reflect.Uint32, reflect.Uint64, reflect.Uintptr:
+		fmt.Fprint(sb, v.Uint())
+	case reflect.Float32, reflect.Float64:
+		sb.WriteString(strconv.FormatFloat(v.Float(), 'g', -1, 64))
+	default:
+		sb.WriteString(v.Kind().String())
+	}
 }
 
 type c09Res struct {
@@ -140,13 +272,29 @@ func (r c09Res) String() string {
 }
 
 func c09Stream(doc []byte, d c09Dest, cuts []int) (res c09Res) {
+	return c09StreamMode(doc, d, cuts, 0)
+}
+
+var c09ReaderModes = []string{"plain", "last bytes with io.EOF", "empty reads between the pieces", "empty reads and last bytes with io.EOF"}
+
+// mode selects among the reader's freedoms beyond the cuts (c09ReaderModes)
+func c09StreamMode(doc []byte, d c09Dest, cuts []int, mode int) (res c09Res) {
 	defer func() {
 		if rec := recover(); rec != nil {
 			res = c09Res{panicd: fmt.Sprint(rec)}
 		}
 	}()
 	v := d.mk()
-	dec := gojson.NewDecoder(&cutReader{b: doc, cuts: cuts, failAt: -1})
+	rd := &cutReader{b: doc, cuts: cuts, failAt: -1}
+	switch mode {
+	case 1:
+		rd.eofWithData = true
+	case 2:
+		rd.zeroEvery = 2
+	case 3:
+		rd.eofWithData, rd.zeroEvery = true, 3
+	}
+	dec := gojson.NewDecoder(rd)
 	if err := dec.Decode(v); err != nil {
 		return c09Res{}
 	}
@@ -342,6 +490,22 @@ func runC09(o *Out) {
 						"doc": clip(ds), "doc_hex": hx(doc), "dest": d.name, "cuts": fmt.Sprint(cuts), "one_piece": clip(whole.String()), "with_cuts": clip(got.String())})
 				}
 			}
+			// (1b) the reader's other freedoms (last bytes together with io.EOF, reads that deliver nothing) on some of the same chunkings
+			for mode := 1; mode < len(c09ReaderModes); mode++ {
+				cuts := chunkings[(di*31+mode*7)%len(chunkings)]
+				got := c09StreamMode(doc, d, cuts, mode)
+				o.count("stream_decodes", 1)
+				o.hist("reader_protocol", c09ReaderModes[mode])
+				if got != whole && !reported {
+					reported = true
+					if cls := c09KnownInvalid(doc, stdValid, d.name, got.ok, whole.ok); cls != "" {
+						o.known(cls, fmt.Sprintf("%q into %s, cuts %v, reader: %s", ds, d.name, cuts, c09ReaderModes[mode]))
+						continue
+					}
+					o.violation("C09", "Decoder.Decode depends on how the reader delivers the input ("+c09ReaderModes[mode]+")", map[string]string{
+						"doc": clip(ds), "doc_hex": hx(doc), "dest": d.name, "cuts": fmt.Sprint(cuts), "reader": c09ReaderModes[mode], "one_piece": clip(whole.String()), "with_cuts": clip(got.String())})
+				}
+			}
 			// (2) stream = buffer when the document is one JSON text (no second value behind it)
 			buf := c09Buffer(doc, d)
 			if buf.panicd != "" {
@@ -390,12 +554,18 @@ func runC09(o *Out) {
 				if len(doc) > 200 {
 					step = len(doc) / 100
 				}
-				for p := 0; p <= len(doc); p += step {
+				for q := 0; q <= 2*len(doc)+1; q++ {
+					// every position (of the stride) with an error that comes alone; every third of them also with an
+					// error that comes together with the last bytes delivered
+					p, together := q/2, q%2 == 1
+					if p%step != 0 || together && (p == 0 || (p/step+di)%3 != 0) {
+						continue
+					}
 					var sv interface{} = d.mk()
-					sdec := stdjson.NewDecoder(&cutReader{b: doc, failAt: p, err: injected})
+					sdec := stdjson.NewDecoder(&cutReader{b: doc, failAt: p, err: injected, errWithData: together})
 					serr := sdec.Decode(sv)
 					gv := d.mk()
-					gr := &cutReader{b: doc, failAt: p, err: injected}
+					gr := &cutReader{b: doc, failAt: p, err: injected, errWithData: together}
 					gdec := gojson.NewDecoder(gr)
 					var gerr error
 					func() {
@@ -407,10 +577,13 @@ func runC09(o *Out) {
 						gerr = gdec.Decode(gv)
 					}()
 					o.count("reader_failures_injected", 1)
+					if together {
+						o.count("reader_failures_injected_with_data", 1)
+					}
 					// the library asked for more input, was told the reader failed, and still reported success
 					if gerr == nil && gr.failed && serr != nil && errors.Is(serr, injected) {
 						o.violation("C09", "a reader error was turned into a successfully decoded value", map[string]string{
-							"doc": clip(ds), "doc_hex": hx(doc), "dest": d.name, "reader_fails_after_bytes": strconv.Itoa(p), "decoded": clip(c09Snap(gv))})
+							"doc": clip(ds), "doc_hex": hx(doc), "dest": d.name, "reader_fails_after_bytes": strconv.Itoa(p), "error_together_with_the_last_bytes": strconv.FormatBool(together), "decoded": clip(c09Snap(gv))})
 						break
 					}
 					if gerr != nil && errors.Is(gerr, injected) {
@@ -433,6 +606,13 @@ func runC09(o *Out) {
 	c09Sequences(o, docs)
 	c09BoolCases(o)
 	c09WindowSweep(o)
+	c09TokenFailures(o, docs)
+	c09Walks(o, docs)
+	c09TypedDests(o)
+	c09SequenceWindows(o)
+	c09LongStreams(o)
+	c09SequenceFailures(o)
+	c09LargeDocs(o)
 }
 
 // every byte of a document on every side of the boundaries at which the stream buffer is refilled and moved to a
@@ -702,4 +882,1160 @@ func c09Tokens(_ func() (interface{}, error), doc []byte, cuts []int, goj bool) 
 	s := sb.String()
 	s = strings.ReplaceAll(s, "json.Delim", "Delim")
 	return s
+}
+
+// ---------------------------------------------------------------------------------------------------------------
+// Strata added by the audit of the quantifier (destination types of C02, options, entry points and call sequences,
+// window boundaries behind a reset, document sizes, reader failures seen through Token).
+
+// findings of the audit of this harness (Token under a failing reader, white space before a value handed to the
+// Unmarshaler an interface holds); both were repaired in /repo (8798920, 51bcef6): a violation like any other
+func c09Open(o *Out, tag, what string, detail map[string]string) {
+	detail["stratum"] = tag
+	o.violation("C09", what, detail)
+}
+
+// the two decoders behind one interface (gojson.Token is an alias of encoding/json's)
+type c09TokenDecoder interface {
+	Token() (stdjson.Token, error)
+	More() bool
+	Decode(interface{}) error
+	InputOffset() int64
+	UseNumber()
+}
+
+func c09NewDecoder(goj bool, r io.Reader) c09TokenDecoder {
+	if goj {
+		return gojson.NewDecoder(r)
+	}
+	return stdjson.NewDecoder(r)
+}
+
+// every single cut (sampled above `full` bytes), every pair of cuts up to 24 bytes, every byte its own piece, pieces
+// of 2, 3 and 5 bytes
+func c09SmallChunkings(o *Out, n, full int) [][]int {
+	res := [][]int{nil}
+	if n <= 24 {
+		for p := 1; p < n; p++ {
+			for q := p + 1; q < n; q++ {
+				res = append(res, []int{p, q})
+			}
+		}
+	}
+	if n <= full {
+		for p := 1; p < n; p++ {
+			res = append(res, []int{p})
+		}
+	} else {
+		for k := 0; k < 24; k++ {
+			res = append(res, []int{1 + o.rng.Intn(n-1)})
+		}
+	}
+	for _, size := range []int{1, 2, 3, 5} {
+		var c []int
+		for p := size; p < n; p += size {
+			c = append(c, p)
+		}
+		if len(c) > 0 {
+			res = append(res, c)
+		}
+	}
+	return res
+}
+
+// (4b) Token under a failing reader.  What Token hands out before its first error must be the beginning of the token
+// sequence of the whole document (a number cut short by the failure is not a token of the document), and the error
+// that ends the sequence must not be io.EOF -- "the input ended here, cleanly" -- when the reader said otherwise.
+func c09TokenFailures(o *Out, docs []string) {
+	injected := errors.New("injected reader failure")
+	tokens := func(dec c09TokenDecoder) (toks []string, last error) {
+		defer func() {
+			if rec := recover(); rec != nil {
+				last = fmt.Errorf("panic: %v", rec)
+			}
+		}()
+		for i := 0; i < 10000; i++ {
+			t, err := dec.Token()
+			if err != nil {
+				return toks, err
+			}
+			toks = append(toks, fmt.Sprintf("%T:%v", t, t))
+		}
+		return toks, errors.New("no end")
+	}
+	fixed := []string{`[123,456]`, `{"key":"value","n":-12.5e3}`, `[true,false,null]`, ` [ "a\nb" , {"k":[10]} ] `, `12345`, `"string"`, `{"a":{"b":[1,22,333]}} `, `1.5`, `[0.25]`, `-7`}
+	n := 60
+	if o.tier == "thorough" {
+		n = 1000
+	}
+	for i := 0; i < len(docs) && len(fixed) < n; i++ {
+		d := docs[(i*7)%len(docs)]
+		if len(d) > 0 && len(d) <= 80 && utf8.ValidString(d) && stdjson.Valid([]byte(d)) {
+			fixed = append(fixed, d)
+		}
+	}
+	for _, ds := range fixed {
+		doc := []byte(ds)
+		full, ferr := tokens(stdjson.NewDecoder(bytes.NewReader(doc)))
+		if ferr != io.EOF {
+			continue
+		}
+		if gfull, gerr := tokens(gojson.NewDecoder(bytes.NewReader(doc))); gerr != io.EOF || strings.Join(gfull, " ") != strings.Join(full, " ") {
+			continue // c09Sequences compares the token sequences of readers that do not fail
+		}
+		o.current(map[string]string{"property": "C09", "doc": ds, "entry": "Token", "note": "the reader fails after one of the bytes of this document"})
+		for p := 0; p < len(doc); p++ {
+			for t := 0; t < 2; t++ {
+				if t == 1 && p == 0 {
+					continue
+				}
+				rd := &cutReader{b: doc, failAt: p, err: injected, errWithData: t == 1}
+				got, gerr := tokens(gojson.NewDecoder(rd))
+				std, serr := tokens(stdjson.NewDecoder(&cutReader{b: doc, failAt: p, err: injected, errWithData: t == 1}))
+				o.count("token_reader_failures_injected", 1)
+				det := map[string]string{"doc": ds, "doc_hex": hx(doc), "entry": "Token", "reader_fails_after_bytes": strconv.Itoa(p), "error_together_with_the_last_bytes": strconv.FormatBool(t == 1),
+					"tokens": strings.Join(got, " "), "error": fmt.Sprint(gerr), "encoding/json_tokens": strings.Join(std, " "), "encoding/json_error": fmt.Sprint(serr), "tokens_of_the_document": strings.Join(full, " ")}
+				if strings.HasPrefix(fmt.Sprint(gerr), "panic") {
+					o.violation("C09", "panic in Token after a reader failure", det)
+					continue
+				}
+				prefix := len(got) <= len(full)
+				for i := 0; prefix && i < len(got); i++ {
+					prefix = got[i] == full[i]
+				}
+				switch {
+				case !prefix:
+					o.hist("token_after_reader_failure", "a token cut short by the failure is returned")
+					c09Open(o, "TokenTruncatedByReaderError", "a reader error was turned into a successfully returned token: Token returns a number the failure cut short", det)
+				case rd.failed && gerr == io.EOF && len(got) < len(full):
+					o.hist("token_after_reader_failure", "io.EOF instead of the reader's error")
+					c09Open(o, "TokenSwallowsReaderError", "the reader failed before the end of the document and Token reports a clean end of input (io.EOF) instead of the reader's error", det)
+				case errors.Is(gerr, injected):
+					o.hist("token_after_reader_failure", "the reader's error")
+				default:
+					o.hist("token_after_reader_failure", "another error")
+				}
+			}
+		}
+	}
+}
+
+// (3b) the canonical streaming loop -- Token for the opening bracket, More/Decode for the members (Token for the keys),
+// Token for the closing bracket, to a chosen depth -- against encoding/json under every chunking: values, the
+// token sequence and InputOffset after every step.
+func c09Walk(d c09TokenDecoder, decodeAt int, depth int, elem func() interface{}, sb *strings.Builder) bool {
+	t, err := d.Token()
+	if err != nil {
+		fmt.Fprintf(sb, " ERR(eof=%v)", err == io.EOF)
+		return false
+	}
+	fmt.Fprintf(sb, " %T:%v@%d", t, t, d.InputOffset())
+	dl, ok := t.(stdjson.Delim)
+	if !ok || (dl != '[' && dl != '{') {
+		return true
+	}
+	for steps := 0; d.More(); steps++ {
+		if steps > 100000 {
+			sb.WriteString(" NO-END")
+			return false
+		}
+		if dl == '{' {
+			k, err := d.Token()
+			if err != nil {
+				sb.WriteString(" KEY-ERR")
+				return false
+			}
+			fmt.Fprintf(sb, " key %T:%v@%d", k, k, d.InputOffset())
+		}
+		if depth+1 >= decodeAt {
+			v := elem()
+			if err := d.Decode(v); err != nil {
+				sb.WriteString(" DECODE-ERR")
+				return false
+			}
+			fmt.Fprintf(sb, " val %s@%d", c09Snap(v), d.InputOffset())
+		} else if !c09Walk(d, decodeAt, depth+1, elem, sb) {
+			return false
+		}
+	}
+	t, err = d.Token()
+	if err != nil {
+		sb.WriteString(" CLOSE-ERR")
+		return false
+	}
+	fmt.Fprintf(sb, " %T:%v@%d", t, t, d.InputOffset())
+	return true
+}
+
+func c09RunWalk(goj bool, doc []byte, cuts []int, mode int, useNumber bool, decodeAt int, elem func() interface{}) (res string) {
+	defer func() {
+		if rec := recover(); rec != nil {
+			res += " PANIC " + fmt.Sprint(rec)
+		}
+	}()
+	rd := &cutReader{b: doc, cuts: cuts, failAt: -1}
+	switch mode {
+	case 1:
+		rd.eofWithData = true
+	case 2:
+		rd.zeroEvery = 2
+	}
+	d := c09NewDecoder(goj, rd)
+	if useNumber {
+		d.UseNumber()
+	}
+	var sb strings.Builder
+	// a stream of documents: walk until the end of input
+	for i := 0; i < 50; i++ {
+		if !c09Walk(d, decodeAt, 0, elem, &sb) {
+			break
+		}
+		if gd, ok := d.(*gojson.Decoder); ok {
+			if msg, good := c09BufferedOK(gd, doc, rd); !good {
+				sb.WriteString(" BUFFERED: " + msg)
+			}
+		}
+	}
+	return strings.ReplaceAll(sb.String(), "json.Delim", "Delim")
+}
+
+func c09Walks(o *Out, docs []string) {
+	r := o.rng
+	var pool []string
+	for _, d := range docs {
+		var probe interface{}
+		t := strings.TrimLeft(d, " \t\r\n")
+		if len(d) <= 300 && t != "" && (t[0] == '[' || t[0] == '{') && utf8.ValidString(d) && stdjson.Valid([]byte(d)) && gojson.Unmarshal([]byte(d), &probe) == nil {
+			pool = append(pool, d)
+		}
+	}
+	// arrays and objects of records, for the typed element destination
+	recs := []string{`{"x":1,"y":"one"}`, `{"y":"twö\n","x":-2}`, `{ "x" : 3 }`, `{}`, `null`, `{"x":4,"y":"f\"our","z":[1,{"q":"]"}]}`, `{"Y":"😀","X":5}`}
+	var recDocs []string
+	nrec := 12
+	if o.tier == "thorough" {
+		nrec = 200
+	}
+	for i := 0; i < nrec; i++ {
+		var parts []string
+		for j := r.Intn(6); j >= 0; j-- {
+			parts = append(parts, genWS(r)+recs[r.Intn(len(recs))]+genWS(r))
+		}
+		if i%2 == 0 {
+			recDocs = append(recDocs, "["+strings.Join(parts, ",")+"]"+genWS(r))
+		} else {
+			for j := range parts {
+				parts[j] = genStrings[r.Intn(len(genStrings))] + genWS(r) + ":" + parts[j]
+			}
+			recDocs = append(recDocs, genWS(r)+"{"+strings.Join(parts, ",")+"}")
+		}
+	}
+	nw := 120
+	if o.tier == "thorough" {
+		nw = 2500
+	}
+	if len(pool) == 0 {
+		return
+	}
+	for i := 0; i < nw; i++ {
+		typed := i%4 == 3
+		var ds string
+		if typed {
+			ds = recDocs[r.Intn(len(recDocs))]
+		} else {
+			ds = pool[r.Intn(len(pool))]
+			// sometimes a stream of two documents
+			if r.Intn(4) == 0 {
+				ds += []string{"", " ", "\n"}[r.Intn(3)] + pool[r.Intn(len(pool))]
+			}
+		}
+		// sometimes moved to a window boundary by leading white space
+		if r.Intn(3) == 0 {
+			w := []int{512, 1024}[r.Intn(2)]
+			if pad := w - 1 - r.Intn(len(ds)+2); pad > 0 {
+				ds = strings.Repeat(" ", pad) + ds
+			}
+		}
+		doc := []byte(ds)
+		elem := func() interface{} { var x interface{}; return &x }
+		decodeAt := 1 + r.Intn(3)
+		useNumber := r.Intn(2) == 0
+		if typed {
+			elem = func() interface{} { return &c09In{} }
+			decodeAt = 1
+		}
+		want := c09RunWalk(false, doc, nil, 0, useNumber, decodeAt, elem)
+		if strings.Contains(want, "ERR(eof=false)") || strings.Contains(want, "-ERR") || strings.Contains(want, "PANIC") || strings.Contains(want, "NO-END") {
+			o.count("walks_skipped_encoding_json_fails", 1) // no oracle
+			continue
+		}
+		o.current(map[string]string{"property": "C09", "doc": clip(ds), "doc_hex": hx(doc), "entry": "Token/More/Decode loop"})
+		chunkings := c09SmallChunkings(o, len(doc), 160)
+		for _, b := range []int{511, 512, 1023, 1024} {
+			if b < len(doc) {
+				chunkings = append(chunkings, []int{b})
+			}
+		}
+		for ci, cuts := range chunkings {
+			mode := 0
+			if ci%5 == 4 {
+				mode = 1 + ci%2
+			}
+			got := c09RunWalk(true, doc, cuts, mode, useNumber, decodeAt, elem)
+			o.count("walks", 1)
+			if got != want {
+				o.violation("C09", "the Token/More/Decode loop over a document differs from encoding/json's (values, tokens or InputOffset after a step)", map[string]string{
+					"doc": clip(ds), "doc_hex": hx(doc), "cuts": fmt.Sprint(cuts), "reader": c09ReaderModes[mode], "use_number": strconv.FormatBool(useNumber), "decode_at_depth": strconv.Itoa(decodeAt),
+					"typed_elements": strconv.FormatBool(typed), "got": clipN(got, 1500), "want": clipN(want, 1500)})
+				break
+			}
+		}
+		if typed {
+			o.hist("walk_kind", "typed elements")
+		} else {
+			o.hist("walk_kind", fmt.Sprintf("interface elements, Decode at depth %d, UseNumber=%v", decodeAt, useNumber))
+		}
+	}
+	// every token of a document on every side of a refill that moves the buffer (as c09WindowSweep, through Token)
+	sweep := []string{
+		`{"kéy":[1,-22.5e3,"s\n\"t😀é"],"l":{"m":true,"n":null},"o":false} [12345678,"x"]`,
+		`[{"x":1,"y":"one"} , {"y":"twö","x":-2},{},null,{"x":3,"z":["]",{"q":"}"}]}]`,
+	}
+	windows := []int{512, 1024}
+	if o.tier == "thorough" {
+		windows = append(windows, 2048, 4096)
+	}
+	for di, ds := range sweep {
+		for _, decodeAt := range []int{1, 2, 9} {
+			elem := func() interface{} { var x interface{}; return &x }
+			if di == 1 {
+				if decodeAt == 9 {
+					continue
+				}
+				elem = func() interface{} { return &c09In{} }
+			}
+			for _, w := range windows {
+				o.current(map[string]string{"property": "C09", "doc": ds, "entry": "Token/More/Decode loop", "note": fmt.Sprintf("behind %d-k leading spaces, k = -2..%d", w, len(ds)+2)})
+				for k := -2; k <= len(ds)+2; k++ {
+					pad := w - k
+					if pad < 0 {
+						continue
+					}
+					doc := []byte(strings.Repeat(" ", pad) + ds)
+					useNumber := k%2 == 0
+					want := c09RunWalk(false, doc, nil, 0, useNumber, decodeAt, elem)
+					for _, cuts := range [][]int{nil, {w - 1}, {w - 1, 2*w - 2}} {
+						got := c09RunWalk(true, doc, cuts, 0, useNumber, decodeAt, elem)
+						o.count("walk_window_positions", 1)
+						if got != want {
+							o.violation("C09", "the Token/More/Decode loop differs from encoding/json's when a token crosses a refill of the stream buffer", map[string]string{
+								"doc": ds, "leading_spaces": strconv.Itoa(pad), "cuts": fmt.Sprint(cuts), "use_number": strconv.FormatBool(useNumber), "decode_at_depth": strconv.Itoa(decodeAt),
+								"got": clipN(got, 1500), "want": clipN(want, 1500)})
+							break
+						}
+					}
+				}
+			}
+		}
+	}
+}
+
+// (1c)/(2b) the destination types of C02 and the Decoder's options.  A fixed family that reaches the twin paths of the
+// stream decoder no destination above reaches (8-bit key matcher at the top level, the map-lookup key decoder of
+// structs the matchers do not take, ",string" fields, Unmarshaler / TextUnmarshaler payloads and keys, embedded
+// structs, json.Number, every integer width, []byte, arrays with surplus elements, pointers), and the generated
+// types and documents of C02's typed decoding model.  Reference: Unmarshal (UnmarshalWithOption for FirstWin) on the
+// same bytes; for UseNumber / DisallowUnknownFields, which Unmarshal does not have, the one-piece stream decode.
+type c09xS8 struct {
+	A  int     `json:"a"`
+	Bc string  `json:"bc"`
+	D  []int   `json:"d"`
+	Ab *c09xS8 `json:"ab"`
+	B  float64 `json:"b"`
+}
+
+type c09xSBig struct {
+	F0, F1, F2, F3, F4, F5, F6, F7, F8, F9, F10, F11, F12, F13, F14, F15, F16, F17 int
+	Name                                                                           string `json:"name"`
+	Sub                                                                            *c09xS8
+}
+
+type c09xSUni struct {
+	A int    `json:"é"`
+	B string `json:"Straße"`
+	C int    `json:"K"`
+	D []int  `json:"ключ"`
+}
+
+type c09xSStr struct {
+	A int64   `json:"a,string"`
+	B bool    `json:"b,string"`
+	C string  `json:"c,string"`
+	D float64 `json:"d,string"`
+	E *uint8  `json:"e,string"`
+}
+
+type c09xBase struct {
+	Id   int    `json:"id"`
+	Name string `json:"name"`
+}
+
+type c09xSEmb struct {
+	c09xBase
+	*c09xS8
+	Name  string `json:"name"`
+	Extra string `json:"extra"`
+}
+
+// records the text it is given
+type c09xUM struct{ Raw string }
+
+func (u *c09xUM) UnmarshalJSON(b []byte) error {
+	u.Raw = string(b)
+	return nil
+}
+
+type c09xTM struct{ Text string }
+
+func (t *c09xTM) UnmarshalText(b []byte) error {
+	t.Text = "<" + string(b) + ">"
+	return nil
+}
+
+func (t c09xTM) MarshalText() ([]byte, error) { return []byte(t.Text), nil }
+
+type c09xSMix struct {
+	U  c09xUM                 `json:"u"`
+	PU *c09xUM                `json:"pu"`
+	T  c09xTM                 `json:"t"`
+	N  stdjson.Number         `json:"n"`
+	R  gojson.RawMessage      `json:"r"`
+	MT map[c09xTM]int         `json:"mt"`
+	MI map[int16]string       `json:"mi"`
+	By []byte                 `json:"by"`
+	Ar [2]uint8               `json:"ar"`
+	PP **int                  `json:"pp"`
+	F3 float32                `json:"f3"`
+	U6 uint64                 `json:"u6"`
+	I8 int8                   `json:"i8"`
+	If interface{ M() }       `json:"if"`
+	Tm time.Time              `json:"tm"`
+	SU []c09xUM               `json:"su"`
+	MU map[string]*c09xUM     `json:"mu"`
+	An struct{ X, Y int }     `json:"an"`
+	MM map[string]map[int]int `json:"mm"`
+}
+
+type c09xFamily struct {
+	name string
+	typ  reflect.Type
+	docs []string
+	init func(reflect.Value) // the state of the destination before the call (nil: the zero value)
+}
+
+// interface types with methods, and a destination whose interfaces hold pointers before the call: the decoder works
+// on what the interface holds (interfaceDecoder.DecodeStream has its own code for each case)
+type c09xIfM interface{ UnmarshalJSON([]byte) error }
+type c09xIfT interface{ UnmarshalText([]byte) error }
+
+type c09xSIf struct {
+	S interface{} `json:"s"`
+	U interface{} `json:"u"`
+	T interface{} `json:"t"`
+	P interface{} `json:"p"`
+	V interface{} `json:"v"`
+	M c09xIfM     `json:"m"`
+	X c09xIfT     `json:"x"`
+}
+
+func c09xSIfInit(v reflect.Value) {
+	n := 7
+	v.Set(reflect.ValueOf(c09xSIf{S: &c09xS8{A: 9, Bc: "before"}, U: &c09xUM{Raw: "before"}, T: &c09xTM{Text: "before"}, P: &n, V: 5, M: &c09xUM{Raw: "before"}, X: &c09xTM{Text: "before"}}))
+}
+
+// open finding of this audit (StreamInterfaceUnmarshalerWhiteSpace): the document puts white space between the colon
+// and the value of a member decoded through an interface type with methods
+var c09xWSBeforeIfaceValue = regexp.MustCompile(`"[mx]"[ \t\r\n]*:[ \t\r\n]+`)
+
+var c09xFamilies = []c09xFamily{
+	{"struct, 8-bit key matcher", reflect.TypeOf(c09xS8{}), []string{
+		`{"a":1,"bc":"x\ny","d":[1,2,3],"ab":{"a":2,"bc":"q","zz":[1,{"a":"}"}]},"unknown":{"k":"v\\"},"A":5,"b":1.5}`,
+		`{"\u0061":7,"b\u0063":"😀","AB":null,"d":null, "a\\":1, "":2,"\u0062":-2e2,"abc":3,"b\"":[],"B":0.5}`,
+		` { "ab" : { "ab" : { "bc" : "deep\u00e9" , "d" : [ ] } } , "bc" : "\ud83d\ude00" , "a" : -0 } `,
+		`{"a":1,"a":2,"bc":"first","bc":"second","d":[1],"d":[2,3],"zz":"skipped \" string","b":1,"ab":null}`}, nil},
+	{"struct, map-lookup key decoder (more than 16 fields)", reflect.TypeOf(c09xSBig{}), []string{
+		`{"F0":1,"f17":2,"F1":3,"name":"n\"","F99":[1,2],"F16":4,"NAME":"x","Sub":{"a":1,"bc":"s"},"\u0046\u0031\u0030":10,"F1\u0031":11}`,
+		`{ "f2" : 2 , "F3":3,"unknown\\":{"x":"}"},"sub":null,"F12":12,"F13" :13,"F14": 14,"Name":"\u00e9\n"}`}, nil},
+	{"struct, map-lookup key decoder (keys outside ASCII)", reflect.TypeOf(c09xSUni{}), []string{
+		`{"é":1,"Straße":"s","k":3,"\u00e9":2,"STRASSE":"no","straße":"low","É":9,"K":7,"ключ":[1,2],"КЛЮЧ":[3],"\u043a\u043b\u044e\u0447":[4]}`,
+		`{"e\u0301":5,"Straße\u0000":"x","ключ":null,"ключ ":[9]," é":4}`}, nil},
+	{"struct, fields with the string option", reflect.TypeOf(c09xSStr{}), []string{
+		`{"a":"123","b":"true","c":"\"x\\ny\"","d":"1.5","e":"255"}`, `{"a":"-9223372036854775808","b":"false","c":"\"\"","d":"-1e-2","e":null}`,
+		`{"a":"\u0031\u0032","b":"tru\u0065","c":"\"\\u00e9\"","d":"\u0031","e":"7"}`, `{"a":"12x"}`, `{"b":"tru"}`, `{"c":"x"}`, `{"e":"256"}`, `{"a":12}`, `{"a":" 12"}`, `{"d":"1.5 "}`}, nil},
+	{"struct with embedded structs", reflect.TypeOf(c09xSEmb{}), []string{
+		`{"id":1,"name":"outer","extra":"e","a":5,"bc":"emb","d":[1],"ab":{"a":1},"b":2.5}`, `{"extra":"\u0065","ID":2,"Name":"n","A":null}`, `{"a":1,"id":"wrong"}`}, nil},
+	{"struct of Unmarshalers, numbers, keys of every kind", reflect.TypeOf(c09xSMix{}), []string{
+		`{"u":{"k":[1,"}\"",{"x":null}]},"pu": [1 , 2.5e3,"s\\"] ,"t":"te\u00e9xt\n","n":-12.50e+3,"r": {"raw" : [1, "]"]} ,"mt":{"k1":1,"k\"2":2},"mi":{"-5":"a","7":"b"}}`,
+		`{"by":"AQIDBA==","ar":[1,2,3,{"surplus":"]"}],"pp":5,"f3":1.5e10,"u6":18446744073709551615,"i8":-128,"if":null,"tm":"2024-02-29T12:34:56.789Z","su":[1,"two",[3],{"f":4},null,true],"mu":{"a":{"b":1},"c":null}}`,
+		`{"an":{"X":1,"y":2,"z":3},"mm":{"o":{"1":2,"-3":4},"p":{},"q":null},"u":"str\\ing","pu":null,"t":null,"n":null,"r":null,"by":null,"ar":null,"pp":null}`,
+		`{"u":tru}`, `{"n":"12"}`, `{"n":"x"}`, `{"i8":128}`, `{"u6":-1}`, `{"f3":1e39}`, `{"by":"@@"}`, `{"by":[1,2,255]}`, `{"mi":{"40000":"x"}}`, `{"tm":"yesterday"}`, `{"ar":[256]}`, `{"if":1}`, `{"mt":{"a":"x"}}`}, nil},
+	{"struct of populated interfaces", reflect.TypeOf(c09xSIf{}), []string{
+		`{"s": {"a":1,"bc":"x\ny","zz":[1]} ,"u": {"k":["}"]} ,"t": "te\u00e9xt" ,"p": 12 ,"v": "str","m":[1, "]"] ,"x":"k\"" }`,
+		`{"s":null,"u":null,"t":null,"p":null,"v":null,"m":null,"x":null}`,
+		`{"m":{"a":"\\"},"x":"\ud83d\ude00","u":-1.5e3,"t":"","s":{"ab":{"a":2}},"p":"wrong kind"}`,
+		`{"m":tru}`, `{"x":5}`, `{"x":"\q"}`,
+		// white space before the value of m and x (open finding StreamInterfaceUnmarshalerWhiteSpace)
+		`{"m": {"k":1}}`, `{"x": "b"}`, `{"x": null}`, "{\"m\":\n[1] ,\"x\"\t:\t\"t\"}"}, c09xSIfInit},
+	{"json.Number", reflect.TypeOf(stdjson.Number("")), []string{`123`, `-123.5e+10`, `"12"`, `null`, `1e400`, ` 0.0 `, `"1x"`, `12x`, `-`, `1.`, `"\u0031"`}, nil},
+	{"uint64", reflect.TypeOf(uint64(0)), []string{`18446744073709551615`, `18446744073709551616`, `0`, `-1`, `12.0`, `1e2`, ` 42 `, `null`, `"1"`}, nil},
+	{"int8", reflect.TypeOf(int8(0)), []string{`-128`, `127`, `128`, `-129`, `-0`, `1e1`, `null`}, nil},
+	{"uint8", reflect.TypeOf(uint8(0)), []string{`255`, `256`, `0`, `00`, `1 2`}, nil},
+	{"float32", reflect.TypeOf(float32(0)), []string{`3.4028235e38`, `3.5e38`, `-1.5`, `1e-50`, `null`, `1.5.5`}, nil},
+	{"**int", reflect.TypeOf((**int)(nil)), []string{`5`, `null`, ` -77 `, `"x"`}, nil},
+	{"[]byte", reflect.TypeOf([]byte(nil)), []string{`"AQID"`, `"AQIDBA=="`, `"A\u0051ID"`, `"AQ\nID"`, `[1,2,3]`, `null`, `""`, `"@"`, `[256]`}, nil},
+	{"[2]string with surplus elements", reflect.TypeOf([2]string{}), []string{`["a","b","c",{"d":"]"},[5]]`, `["only"]`, `[]`, `null`, `["a",2]`, `["a","b",tru]`}, nil},
+	{"map[int]string", reflect.TypeOf(map[int]string{}), []string{`{"1":"a","-2":"b\n","3":"c"}`, `{"1":"a","1":"b","+1":"c"}`, `{"\u0031":"x"}`, `{"x":"y"}`, `{}`, `null`}, nil},
+	{"map[TextUnmarshaler]Unmarshaler", reflect.TypeOf(map[c09xTM]c09xUM{}), []string{`{"k\u00e9y":{"a":[1]},"\"":"s","":null}`, `{"a":1,"a":2}`}, nil},
+	{"[]Unmarshaler", reflect.TypeOf([]c09xUM{}), []string{`[1, "two\\" ,[3 , 4],{"f":"}]"}, null,true ,-1.5e3]`, `[tru]`, `[1,]`}, nil},
+	{"time.Time", reflect.TypeOf(time.Time{}), []string{`"2024-02-29T12:34:56.789+01:00"`, `"2024-02-2\u0039T00:00:00Z"`, `null`, `"x"`, `5`}, nil},
+	{"[]*struct", reflect.TypeOf([]*c09In{}), []string{`[{"x":1,"y":"one"},null,{"y":"tw\u00f6","x":-2},{}]`, `[{"x":1}, {"x":"s"}]`}, nil},
+	{"map[string][]map[string]uint16", reflect.TypeOf(map[string][]map[string]uint16{}), []string{`{"a":[{"b":1,"c":65535},{}],"d":[],"e":null,"f":[null,{"g":0}]}`, `{"a":[{"b":65536}]}`}, nil},
+}
+
+var c09xOptions = []string{"none", "UseNumber", "DisallowUnknownFields", "FirstWin", "UseNumber+DisallowUnknownFields+FirstWin"}
+
+type c09xRes struct {
+	ok     bool
+	snap   string
+	offset int64
+	panicd string
+}
+
+func (r c09xRes) String() string {
+	if r.panicd != "" {
+		return "PANIC " + r.panicd
+	}
+	if !r.ok {
+		return "reject"
+	}
+	return "accept " + r.snap + " @" + strconv.FormatInt(r.offset, 10)
+}
+
+func c09xStream(doc []byte, t reflect.Type, init func(reflect.Value), opt int, rd io.Reader) (res c09xRes) {
+	defer func() {
+		if rec := recover(); rec != nil {
+			res = c09xRes{panicd: fmt.Sprint(rec)}
+		}
+	}()
+	v := reflect.New(t)
+	if init != nil {
+		init(v.Elem())
+	}
+	dec := gojson.NewDecoder(rd)
+	if opt == 1 || opt == 4 {
+		dec.UseNumber()
+	}
+	if opt == 2 || opt == 4 {
+		dec.DisallowUnknownFields()
+	}
+	var err error
+	if opt >= 3 {
+		err = dec.DecodeWithOption(v.Interface(), gojson.DecodeFieldPriorityFirstWin())
+	} else {
+		err = dec.Decode(v.Interface())
+	}
+	if err != nil {
+		return c09xRes{}
+	}
+	return c09xRes{ok: true, snap: c09Snap(v.Elem().Interface()), offset: dec.InputOffset()}
+}
+
+func c09xBuffer(doc []byte, t reflect.Type, init func(reflect.Value), opt int) (res c09xRes) {
+	defer func() {
+		if rec := recover(); rec != nil {
+			res = c09xRes{panicd: fmt.Sprint(rec)}
+		}
+	}()
+	v := reflect.New(t)
+	if init != nil {
+		init(v.Elem())
+	}
+	var err error
+	if opt == 3 {
+		err = gojson.UnmarshalWithOption(doc, v.Interface(), gojson.DecodeFieldPriorityFirstWin())
+	} else {
+		err = gojson.Unmarshal(doc, v.Interface())
+	}
+	if err != nil {
+		return c09xRes{}
+	}
+	return c09xRes{ok: true, snap: c09Snap(v.Elem().Interface())}
+}
+
+// one (type, document, option) under the chunkings; returns false after a violation
+func c09xCase(o *Out, family string, t reflect.Type, init func(reflect.Value), ds string, opt int, chunkings [][]int, pad int) bool {
+	doc := []byte(strings.Repeat(" ", pad) + ds)
+	det := func() map[string]string {
+		return map[string]string{"doc": clipN(ds, 1200), "doc_hex": hx([]byte(ds)), "leading_spaces": strconv.Itoa(pad), "type": clipN(t.String(), 600), "family": family, "options": c09xOptions[opt]}
+	}
+	whole := c09xStream(doc, t, init, opt, &cutReader{b: doc, failAt: -1})
+	o.count("typed_stream_decodes", 1)
+	if whole.panicd != "" {
+		d := det()
+		d["panic"] = whole.panicd
+		o.violation("C09", "panic in stream decoding", d)
+		return false
+	}
+	valid := stdjson.Valid(doc)
+	if whole.ok {
+		o.hist("typed_one_piece_verdict", "accept")
+	} else {
+		o.hist("typed_one_piece_verdict", "reject")
+	}
+	// stream = buffer, for the options Unmarshal has; a text that is not one JSON value is left to the untyped part above
+	if valid && utf8.Valid(doc) && (opt == 0 || opt == 3) {
+		buf := c09xBuffer(doc, t, init, opt)
+		o.count("typed_stream_vs_buffer", 1)
+		if buf.panicd == "" && (buf.ok != whole.ok || buf.ok && buf.snap != whole.snap) {
+			d := det()
+			d["stream"], d["buffer"] = clipN(whole.String(), 1200), clipN(buf.String(), 1200)
+			if t == reflect.TypeOf(c09xSIf{}) && c09xWSBeforeIfaceValue.MatchString(ds) {
+				c09Open(o, "StreamInterfaceUnmarshalerWhiteSpace", "Decoder.Decode and Unmarshal disagree on a valid document: white space before a value that is decoded through an interface type with methods holding an Unmarshaler or TextUnmarshaler", d)
+				return true
+			}
+			o.violation("C09", "Decoder.Decode and Unmarshal disagree on a valid document (typed destination)", d)
+			return false
+		}
+	}
+	for ci, cuts := range chunkings {
+		if cuts == nil {
+			continue
+		}
+		rd := &cutReader{b: doc, cuts: cuts, failAt: -1}
+		mode := 0
+		if ci%7 == 6 {
+			mode = 1 + ci%3
+			rd.eofWithData = mode != 2
+			if mode >= 2 {
+				rd.zeroEvery = mode
+			}
+		}
+		got := c09xStream(doc, t, init, opt, rd)
+		o.count("typed_stream_decodes", 1)
+		if got != whole {
+			d := det()
+			d["cuts"], d["reader"], d["one_piece"], d["with_cuts"] = fmt.Sprint(cuts), c09ReaderModes[mode], clipN(whole.String(), 1200), clipN(got.String(), 1200)
+			o.violation("C09", "Decoder.Decode depends on how the reader cuts the input (typed destination)", d)
+			return false
+		}
+	}
+	return true
+}
+
+func c09TypedDests(o *Out) {
+	r := o.rng
+	thorough := o.tier == "thorough"
+	// the fixed family: every document valid or not, every option, every single cut; then every byte of the document
+	// on both sides of a refill that moves the buffer
+	for _, fam := range c09xFamilies {
+		for _, ds := range fam.docs {
+			for opt := range c09xOptions {
+				if !thorough && len(ds) > 60 && opt != 0 && opt != 1+(len(ds)+len(fam.name))%4 {
+					continue // the long documents: without options and with one of them
+				}
+				if !stdjson.Valid([]byte(ds)) && fam.typ.Kind() == reflect.Struct && bytes.IndexByte([]byte(ds), '\\') >= 0 {
+					continue // the recorded findings about malformed keys and skipped regions (c09KnownInvalid)
+				}
+				o.hist("typed_family", fam.name)
+				o.hist("typed_options", c09xOptions[opt])
+				o.current(map[string]string{"property": "C09", "doc": ds, "type": fam.typ.String(), "family": fam.name, "options": c09xOptions[opt], "note": "one of the chunkings of this document"})
+				if !c09xCase(o, fam.name, fam.typ, fam.init, ds, opt, c09SmallChunkings(o, len(ds), 400), 0) {
+					break
+				}
+			}
+			if len(ds) < 40 || !stdjson.Valid([]byte(ds)) {
+				continue
+			}
+			windows := []int{512, 1024}
+			if thorough {
+				windows = append(windows, 2048)
+			}
+			for _, w := range windows {
+				o.current(map[string]string{"property": "C09", "doc": ds, "type": fam.typ.String(), "family": fam.name, "note": fmt.Sprintf("behind %d-k leading spaces, k = -1..%d, reader cut at %d", w, len(ds)+1, w-1)})
+				for k := -1; k <= len(ds)+1; k++ {
+					if pad := w - k; pad >= 0 {
+						o.count("typed_window_positions", 1)
+						if !c09xCase(o, fam.name, fam.typ, fam.init, ds, 0, [][]int{{w - 1}, {w - 1, 2*w - 2}}, pad) {
+							break
+						}
+					}
+				}
+			}
+		}
+	}
+	// generated types and documents of C02's typed decoding model
+	n := 400
+	if thorough {
+		n = 12000
+	}
+	for i := 0; i < n; i++ {
+		var t reflect.Type
+		if i%3 == 0 {
+			t = c02mType(r, 3)
+		} else {
+			t = c02mStruct(r, 2)
+		}
+		ds := c02mDoc(r, t, 0)
+		if !utf8.ValidString(ds) || !stdjson.Valid([]byte(ds)) || len(ds) > 1500 {
+			o.count("typed_generated_skipped", 1)
+			continue
+		}
+		opt := r.Intn(len(c09xOptions))
+		o.hist("typed_family", "generated (C02 model fragment): "+t.Kind().String())
+		o.hist("typed_options", c09xOptions[opt])
+		o.current(map[string]string{"property": "C09", "doc": clipN(ds, 1200), "type": clipN(t.String(), 600), "family": "generated", "options": c09xOptions[opt], "note": "one of the chunkings of this document"})
+		c09xCase(o, "generated", t, nil, ds, opt, c09SmallChunkings(o, len(ds), 120), 0)
+	}
+}
+
+// what Buffered returns must be the bytes the reader has delivered and the decoder has not consumed:
+// stream[InputOffset : reader position]
+func c09BufferedOK(dec *gojson.Decoder, stream []byte, rd *cutReader) (string, bool) {
+	off := dec.InputOffset()
+	rest, err := io.ReadAll(dec.Buffered())
+	if err != nil {
+		return "Buffered: " + err.Error(), false
+	}
+	if off < 0 || off > int64(rd.pos) || !bytes.Equal(rest, stream[off:rd.pos]) {
+		return fmt.Sprintf("InputOffset %d, reader has delivered %d bytes, Buffered holds %d bytes %q, the unconsumed bytes are %q", off, rd.pos, len(rest), clipN(string(rest), 200), clipN(string(stream[c09Min64(off, int64(rd.pos)):rd.pos]), 200)), false
+	}
+	return "", true
+}
+
+func c09Min64(a, b int64) int64 {
+	if a < 0 {
+		return 0
+	}
+	if a < b {
+		return a
+	}
+	return b
+}
+
+type c09SeqItem struct {
+	doc  string
+	typ  reflect.Type
+	self bool // the text ends with a closing quote or bracket: the next document may follow without a separator
+}
+
+var c09SeqItems = []c09SeqItem{
+	{`{"a":-12,"b":"x\nyé","c":[1,2],"zz":{"q":"}"},"g":true,"n":7}`, reflect.TypeOf(c09T{}), true},
+	{`"stréing\"q😀\\"`, reflect.TypeOf(""), true},
+	{`-123.5e3`, reflect.TypeOf(float64(0)), false},
+	{`12345`, reflect.TypeOf(int(0)), false},
+	{`true`, reflect.TypeOf(false), false},
+	{`null`, tgIface, false},
+	{`[1,"a",{"k":null}]`, tgIface, true},
+	{`{"k":"v\\","k2":""}`, reflect.TypeOf(map[string]string{}), true},
+	{`[1, 2,3 ]`, reflect.TypeOf([]int{}), true},
+	{`"AQIDBA=="`, reflect.TypeOf([]byte{}), true},
+	{`{"a":1,"bc":"x","zz":[{"a":"]"}],"ab":{"d":[7]}}`, reflect.TypeOf(c09xS8{}), true},
+	{`{"u":{"k":[1]},"n":1.50,"by":"AQ==","tm":"2024-02-29T12:34:56Z","mi":{"-1":"m"}}`, reflect.TypeOf(c09xSMix{}), true},
+	{`[{"x":1,"y":"one"},{"x":2}]`, reflect.TypeOf([]c09In{}), true},
+	{`18446744073709551615`, reflect.TypeOf(uint64(0)), false},
+	{`{ "raw" : [1, "]\\"] }`, reflect.TypeOf(gojson.RawMessage{}), true},
+	{`-1.25e-3`, reflect.TypeOf(stdjson.Number("")), false},
+}
+
+// one stream of documents through one Decoder, each into a fresh destination of its type: values as Unmarshal's of the
+// single documents, InputOffset between the end of the value and the start of the next, Buffered, More
+func c09RunSequence(o *Out, items []c09SeqItem, firstPad string, seps []string, cuts []int, mode int, what string) bool {
+	var stream []byte
+	var lo, hi []int
+	for i, it := range items {
+		if i == 0 {
+			stream = append(stream, firstPad...)
+		}
+		stream = append(stream, it.doc...)
+		lo = append(lo, len(stream))
+		stream = append(stream, seps[i]...)
+		hi = append(hi, len(stream))
+	}
+	rd := &cutReader{b: stream, cuts: cuts, failAt: -1}
+	switch mode {
+	case 1:
+		rd.eofWithData = true
+	case 2:
+		rd.zeroEvery = 2
+	case 3:
+		rd.eofWithData, rd.zeroEvery = true, 3
+	}
+	det := map[string]string{"stream": clipN(string(stream), 1500), "stream_hex": hx(stream), "cuts": fmt.Sprint(cuts), "reader": c09ReaderModes[mode], "stratum": what}
+	fail := func(msg string, i int) bool {
+		det["index"] = strconv.Itoa(i)
+		if i < len(items) {
+			det["document"], det["type"] = items[i].doc, items[i].typ.String()
+		}
+		o.violation("C09", msg, det)
+		return false
+	}
+	ok := true
+	func() {
+		defer func() {
+			if rec := recover(); rec != nil {
+				det["panic"] = fmt.Sprint(rec)
+				ok = fail("panic while decoding a stream of documents", len(items))
+			}
+		}()
+		dec := gojson.NewDecoder(rd)
+		for i, it := range items {
+			if !dec.More() {
+				ok = fail("More() = false before a document of the stream", i)
+				return
+			}
+			gv, bv := reflect.New(it.typ), reflect.New(it.typ)
+			gerr := dec.Decode(gv.Interface())
+			berr := gojson.Unmarshal([]byte(it.doc), bv.Interface())
+			o.count("typed_sequence_documents", 1)
+			if berr != nil {
+				ok = fail("(harness) Unmarshal rejects a document of the sequence stratum: "+berr.Error(), i)
+				return
+			}
+			if gerr != nil || c09Snap(gv.Elem().Interface()) != c09Snap(bv.Elem().Interface()) {
+				det["got"], det["want"], det["err"] = clipN(c09Snap(gv.Elem().Interface()), 800), clipN(c09Snap(bv.Elem().Interface()), 800), fmt.Sprint(gerr)
+				ok = fail("a stream of concatenated documents does not decode to the sequence of the individual documents (typed destinations)", i)
+				return
+			}
+			if off := dec.InputOffset(); off < int64(lo[i]) || off > int64(hi[i]) {
+				ok = fail(fmt.Sprintf("InputOffset() = %d after a document of the stream, outside [%d,%d] (end of the value .. start of the next)", off, lo[i], hi[i]), i)
+				return
+			}
+			if msg, good := c09BufferedOK(dec, stream, rd); !good {
+				ok = fail("Buffered() is not the delivered and unconsumed part of the input: "+msg, i)
+				return
+			}
+		}
+		if dec.More() {
+			ok = fail("More() = true after the last document", len(items))
+			return
+		}
+		var x interface{}
+		if err := dec.Decode(&x); err != io.EOF {
+			det["err"] = fmt.Sprint(err)
+			ok = fail("Decode after the last document does not return io.EOF", len(items))
+		}
+	}()
+	return ok
+}
+
+// (3c) documents that begin, end and are reset on every side of the refill boundaries: a first document padded so that
+// it ends k bytes before or behind the byte at which the window is full, then documents of every kind into typed
+// destinations, with and without separators
+func c09SequenceWindows(o *Out) {
+	r := o.rng
+	thorough := o.tier == "thorough"
+	firsts := []struct {
+		open, fill, close string
+		typ               reflect.Type
+	}{
+		{`"`, "x", `"`, reflect.TypeOf("")},
+		{`[`, " ", `]`, tgIface},
+		{`{"k":"`, "é", `"}`, reflect.TypeOf(map[string]string{})},
+		{`[`, "1,", `1]`, reflect.TypeOf([]int{})},
+	}
+	windows := []int{512, 1024}
+	if thorough {
+		windows = append(windows, 2048)
+	}
+	span := 4
+	for _, w := range windows {
+		for fi, f := range firsts {
+			for si, second := range c09SeqItems {
+				o.current(map[string]string{"property": "C09", "stratum": "streams of three documents around a refill boundary", "window": strconv.Itoa(w), "first_document": f.open + f.fill + "..." + f.close,
+					"second_document": second.doc, "second_type": second.typ.String(), "note": fmt.Sprintf("the first document ends k bytes before byte %d, k = %d..%d", w-1, -span, len(second.doc)+span)})
+				for k := -span; k <= len(second.doc)+span; k++ {
+					if !thorough && (k+si+fi)%2 != 0 && k > 2 && k < len(second.doc)-2 {
+						continue // quick tier: every position at the two ends of the second document, every other one inside
+					}
+					sep := []string{" ", "", "\n"}[(k+span)%3]
+					// the first document ends at byte w-1-k of the stream
+					n := (w - 1 - k - len(sep) - len(f.open) - len(f.close)) / len(f.fill)
+					if n < 0 {
+						continue
+					}
+					first := c09SeqItem{doc: f.open + strings.Repeat(f.fill, n) + f.close, typ: f.typ, self: true}
+					third := c09SeqItems[r.Intn(len(c09SeqItems))]
+					sep2 := []string{" ", "", "\t\r\n"}[r.Intn(3)]
+					if !second.self && sep2 == "" {
+						sep2 = " "
+					}
+					items := []c09SeqItem{first, second, third}
+					seps := []string{sep, sep2, []string{"", " ", "\n"}[r.Intn(3)]}
+					if !third.self && seps[2] == "" && r.Intn(2) == 0 {
+						seps[2] = "\n" // a number or literal at the very end of the input: with and without a byte behind it
+					}
+					for ci, cuts := range [][]int{nil, {w - 1}, {w}, {w - 1 - k}} {
+						for len(cuts) > 0 && cuts[len(cuts)-1] <= 0 {
+							cuts = nil
+						}
+						mode := 0
+						if ci == 3 {
+							mode = (k + span) % 4
+						}
+						o.count("sequence_window_streams", 1)
+						if !c09RunSequence(o, items, "", seps, cuts, mode, fmt.Sprintf("first document ends %d bytes before the %d-byte refill boundary", k, w)) {
+							return
+						}
+					}
+				}
+			}
+		}
+	}
+	// random streams of typed documents under the small chunkings
+	n := 150
+	if thorough {
+		n = 3000
+	}
+	for i := 0; i < n; i++ {
+		var items []c09SeqItem
+		var seps []string
+		for j := 1 + r.Intn(5); j > 0; j-- {
+			it := c09SeqItems[r.Intn(len(c09SeqItems))]
+			sep := []string{" ", "", "\n", "  \t"}[r.Intn(4)]
+			if !it.self && sep == "" && j > 1 {
+				sep = " "
+			}
+			items = append(items, it)
+			seps = append(seps, sep)
+		}
+		total := 0
+		for j := range items {
+			total += len(items[j].doc) + len(seps[j])
+		}
+		var all []string
+		for j := range items {
+			all = append(all, items[j].doc+seps[j])
+		}
+		o.current(map[string]string{"property": "C09", "stratum": "random stream of typed documents", "stream": strings.Join(all, ""), "note": "one of the chunkings of this stream"})
+		for ci, cuts := range c09SmallChunkings(o, total, 100) {
+			o.count("typed_sequence_streams", 1)
+			if !c09RunSequence(o, items, "", seps, cuts, ci%4, "random stream of typed documents") {
+				return
+			}
+		}
+	}
+}
+
+// (3d) long streams of typed documents read by a reader that fills every request: after each document the window is
+// what was left of it, so the refills that move the buffer fall on ever different bytes of the documents that follow
+func c09LongStreams(o *Out) {
+	r := o.rng
+	n := 120
+	if o.tier == "thorough" {
+		n = 3000
+	}
+	for i := 0; i < n; i++ {
+		var items []c09SeqItem
+		var seps, all []string
+		total := 0
+		for j := 20 + r.Intn(40); j > 0; j-- {
+			it := c09SeqItems[r.Intn(len(c09SeqItems))]
+			sep := []string{" ", "", "\n", "  \t"}[r.Intn(4)]
+			if !it.self && sep == "" {
+				sep = " "
+			}
+			items = append(items, it)
+			seps = append(seps, sep)
+			all = append(all, it.doc+sep)
+			total += len(it.doc) + len(sep)
+		}
+		var cuts []int
+		what := "the reader fills every request"
+		if size := []int{0, 0, 511, 512, 513, 1024, 100 + r.Intn(900)}[r.Intn(7)]; size > 0 {
+			for p := size; p < total; p += size {
+				cuts = append(cuts, p)
+			}
+			what = fmt.Sprintf("pieces of %d bytes", size)
+		}
+		o.current(map[string]string{"property": "C09", "stratum": "long stream of typed documents, " + what, "stream": clipN(strings.Join(all, ""), 4000)})
+		o.count("long_streams", 1)
+		o.count("long_stream_refill_boundaries_crossed", int64(c09BitLen(total/511)))
+		if !c09RunSequence(o, items, "", seps, cuts, 0, "long stream of typed documents, "+what) {
+			return
+		}
+	}
+}
+
+// (4c) a reader failure at every byte of a stream of documents: the Decodes that succeed give the values of the
+// documents, in order, and only documents whose value the reader delivered completely
+func c09SequenceFailures(o *Out) {
+	r := o.rng
+	injected := errors.New("injected reader failure")
+	n := 60
+	if o.tier == "thorough" {
+		n = 1200
+	}
+	for i := 0; i < n; i++ {
+		var items []c09SeqItem
+		var stream []byte
+		var ends []int
+		for j := 2 + r.Intn(3); j > 0; j-- {
+			it := c09SeqItems[r.Intn(len(c09SeqItems))]
+			sep := []string{" ", "", "\n"}[r.Intn(3)]
+			if !it.self && sep == "" && j > 1 {
+				sep = " "
+			}
+			items = append(items, it)
+			stream = append(stream, it.doc...)
+			ends = append(ends, len(stream))
+			stream = append(stream, sep...)
+		}
+		o.current(map[string]string{"property": "C09", "stratum": "reader failure at every byte of a stream of documents", "stream": clipN(string(stream), 1500), "stream_hex": hx(stream)})
+		for p := 0; p <= len(stream); p++ {
+			for t := 0; t < 2; t++ {
+				if t == 1 && (p == 0 || (p+i)%2 != 0) {
+					continue
+				}
+				var cuts []int
+				if c := r.Intn(len(stream) + 1); c > 0 && c < len(stream) && r.Intn(2) == 0 {
+					cuts = []int{c}
+				}
+				det := map[string]string{"stream": clipN(string(stream), 1500), "stream_hex": hx(stream), "cuts": fmt.Sprint(cuts), "reader_fails_after_bytes": strconv.Itoa(p), "error_together_with_the_last_bytes": strconv.FormatBool(t == 1)}
+				rd := &cutReader{b: stream, cuts: cuts, failAt: p, err: injected, errWithData: t == 1}
+				dec := gojson.NewDecoder(rd)
+				o.count("sequence_reader_failures_injected", 1)
+				for j, it := range items {
+					gv, bv := reflect.New(it.typ), reflect.New(it.typ)
+					var gerr error
+					func() {
+						defer func() {
+							if rec := recover(); rec != nil {
+								gerr = fmt.Errorf("panic: %v", rec)
+							}
+						}()
+						gerr = dec.Decode(gv.Interface())
+					}()
+					if gerr != nil {
+						if strings.HasPrefix(gerr.Error(), "panic: ") {
+							det["index"], det["panic"] = strconv.Itoa(j), gerr.Error()
+							o.violation("C09", "panic while decoding a stream whose reader fails", det)
+						} else if errors.Is(gerr, injected) {
+							o.hist("sequence_reader_failure", "reported, document "+strconv.Itoa(j))
+						} else {
+							o.hist("sequence_reader_failure", "another error, document "+strconv.Itoa(j))
+						}
+						break
+					}
+					gojson.Unmarshal([]byte(it.doc), bv.Interface())
+					if p < ends[j] || c09Snap(gv.Elem().Interface()) != c09Snap(bv.Elem().Interface()) {
+						det["index"], det["document"], det["decoded"] = strconv.Itoa(j), it.doc, clipN(c09Snap(gv.Elem().Interface()), 800)
+						o.violation("C09", "a reader error was turned into a successfully decoded value (a document of a stream the reader did not deliver completely)", det)
+						break
+					}
+					o.count("sequence_documents_decoded_before_the_failure", 1)
+				}
+			}
+		}
+	}
+}
+
+// (1d) documents many times the size of the window (the buffer is doubled again and again, with tokens of every kind
+// across every doubling) under fixed piece sizes around the powers of two
+func c09LargeDocs(o *Out) {
+	r := o.rng
+	thorough := o.tier == "thorough"
+	type rec struct {
+		ID   int               `json:"id"`
+		Name string            `json:"name"`
+		Tags []string          `json:"tags"`
+		V    float64           `json:"v"`
+		OK   bool              `json:"ok"`
+		Nil  *int              `json:"nil"`
+		M    map[string]string `json:"m"`
+		Raw  gojson.RawMessage `json:"raw"`
+	}
+	type top struct {
+		List []rec  `json:"list"`
+		S    string `json:"s"`
+		B    []byte `json:"b"`
+		N    stdjson.Number
+	}
+	build := func(nrec, nstr int) string {
+		var sb strings.Builder
+		sb.WriteString(`{"list":[`)
+		for i := 0; i < nrec; i++ {
+			if i > 0 {
+				sb.WriteString(genWS(r) + ",")
+			}
+			fmt.Fprintf(&sb, `{"id":%d,"name":"né%d\n😀","tags":["a","b\\",%s],"unknown":{"skipped":[%d,"}\"]"]},"v":%d.5e-1,"ok":%v,"nil":null,"m":{"k%d":%s},"raw": [ %d , {"r":"]"} ] }`,
+				i, i, genStrings[r.Intn(len(genStrings))], i, i, i%2 == 0, i, genStrings[r.Intn(len(genStrings))], i)
+		}
+		sb.WriteString(`],"s":"`)
+		pieces := []string{"xy", `\"`, "z", "é", "é", "😀", `\n`, `é`, `😀`, " ", `\\`, "plain ascii run of some length "}
+		for i := 0; i < nstr; i++ {
+			sb.WriteString(pieces[r.Intn(len(pieces))])
+		}
+		sb.WriteString(`","b":"` + strings.Repeat("QUJD", nstr/3) + `","N":-1` + strings.Repeat("0", 300) + `.5e-7}`)
+		return sb.String()
+	}
+	docs := []string{build(40, 2000), build(300, 100), build(3, 30000), "[" + strings.Repeat(`[[{"a":[`, 600) + strings.Repeat(`]}]]`, 600) + "]"}
+	if thorough {
+		docs = append(docs, build(3000, 40000), build(10, 400000), `"`+strings.Repeat(`é`, 200000)+`"`)
+	}
+	dests := []reflect.Type{tgIface, reflect.TypeOf(top{}), reflect.TypeOf(gojson.RawMessage{}), reflect.TypeOf(map[string]interface{}{})}
+	for _, ds := range docs {
+		doc := []byte(ds + "\n")
+		sizes := []int{0, 7, 511, 512, 513, 1023, 1024, 1025, 4095, 4096, 65536, 2 + r.Intn(300), 300 + r.Intn(5000)}
+		if len(doc) < 40000 || thorough && len(doc) < 300000 {
+			sizes = append(sizes, 1, 2)
+		}
+		for _, t := range dests {
+			bv := reflect.New(t)
+			berr := gojson.Unmarshal(doc, bv.Interface())
+			if berr != nil {
+				o.count("large_documents_rejected_by_unmarshal", 1) // a document of another shape than the destination: the verdicts are compared
+			}
+			want := c09Snap(bv.Elem().Interface())
+			o.current(map[string]string{"property": "C09", "doc": clip(ds), "document_bytes": strconv.Itoa(len(doc)), "type": t.String(), "note": "one of the piece sizes " + fmt.Sprint(sizes)})
+			for _, size := range sizes {
+				gv := reflect.New(t)
+				var gerr error
+				var off int64
+				func() {
+					defer func() {
+						if rec := recover(); rec != nil {
+							gerr = fmt.Errorf("panic: %v", rec)
+						}
+					}()
+					dec := gojson.NewDecoder(&c09SizedReader{b: doc, size: size})
+					gerr = dec.Decode(gv.Interface())
+					off = dec.InputOffset()
+				}()
+				o.count("large_document_decodes", 1)
+				o.hist("large_document_bytes", fmt.Sprintf("2^%d", c09BitLen(len(doc))))
+				if berr != nil && gerr != nil && !strings.HasPrefix(gerr.Error(), "panic: ") {
+					continue
+				}
+				if gerr != nil || berr != nil || c09Snap(gv.Elem().Interface()) != want {
+					o.violation("C09", "Decoder.Decode and Unmarshal disagree on a document many times the size of the stream window", map[string]string{
+						"doc": clip(ds), "document_bytes": strconv.Itoa(len(doc)), "piece_size": strconv.Itoa(size), "type": t.String(), "stream_error": fmt.Sprint(gerr), "unmarshal_error": fmt.Sprint(berr)})
+					break
+				}
+				if off != int64(len(doc)-1) && off != int64(len(doc)) {
+					o.violation("C09", fmt.Sprintf("InputOffset() = %d after a document of %d bytes and one line end", off, len(doc)-1), map[string]string{
+						"doc": clip(ds), "document_bytes": strconv.Itoa(len(doc)), "piece_size": strconv.Itoa(size), "type": t.String()})
+					break
+				}
+			}
+		}
+	}
+}
+
+func c09BitLen(n int) int {
+	k := 0
+	for n > 0 {
+		n >>= 1
+		k++
+	}
+	return k
 }
